@@ -2,6 +2,8 @@ import WpModel.Drive.Loop
 import WpModel.Drive.Floats
 import WpModel.Drive.Absolute
 import WpModel.Drive.Positioned
+import WpModel.Drive.C11Regress
 
 def main : IO Unit :=
-  Wp.Drive.runDriver [Wp.Drive.Floats.handle, Wp.Drive.Absolute.handle, Wp.Drive.Positioned.handle]
+  Wp.Drive.runDriver [Wp.Drive.Floats.handle, Wp.Drive.Absolute.handle, Wp.Drive.Positioned.handle,
+    Wp.Drive.C11Regress.handle]
